@@ -13,7 +13,7 @@ THOROUGH_S = 600
 RULE = ('seeded scenarios on H-SRV: one hostile connection/peer sends generated hostile input (random bytes; valid frames whose '
         'PDU is truncated, over-long or internally inconsistent; MBAP lengths 0/1/2/65535; unknown sub-functions; zero-length '
         'PDUs; bare function codes; well-formed, truncated, extended and bit-mutated requests for every service incl. diagnostics, '
-        'file records and device identification), a second well-behaved connection runs concurrently, a probe connection is opened '
+        'file records and device identification), optionally vanishing (close / reset) at an arbitrary instant, a second well-behaved connection runs concurrently, a probe connection is opened '
         'afterwards; oracle: (a) nothing escapes a serving loop, (b) every datastore change is the model effect of a request '
         'that ref/receiver.justified() finds in the bytes given, (c) well-behaved and probe requests are answered correctly; '
         'non-trivial = >=1 hostile chunk was delivered; distinct = kernel event-kind sequence + front-end + framing')
@@ -147,6 +147,9 @@ def generate(rng, tier, index):
         scn['open_at'] = {'2': round(t_end_hostile, 6)}
         scn['probe_conn'] = 2
     scn['settle'] = max(scn.get('settle', 1.0), 1.0)
+    if kind in STREAM_KINDS and kind != 'sync_serial' and rng.random() < 0.3:
+        # the hostile peer vanishes (close or reset) at an arbitrary instant of its own traffic, also mid-frame
+        sc.add_peer_close(rng, scn, conn=0)
     return scn
 
 
